@@ -163,13 +163,8 @@ func runReconciler(in qinput) *rrun {
 	noteAdd := func(t int64, item int, d int64) {
 		if d <= 0 {
 			r.tw.add(item)
-		} else if e, ok := r.tw.wait[item]; ok {
-			if t+d < e.deadline {
-				e.deadline = t + d
-			}
 		} else {
-			r.tw.seq++
-			r.tw.wait[item] = &wentry{deadline: t + d, seq: r.tw.seq}
+			r.tw.insert(item, t+d)
 		}
 	}
 	rec := func(ev qevent, item int) {
@@ -211,7 +206,7 @@ func runReconciler(in qinput) *rrun {
 	internal := func(kind string, item int, at int64) {
 		switch kind {
 		case "fire":
-			delete(r.tw.wait, item)
+			r.tw.pop(item)
 			r.tw.now = at
 			r.tw.add(item)
 			r.setTime(at)
